@@ -53,7 +53,10 @@ LEVEL_TEXT = ('Theorems for ALL structured programs (any nesting depth, any numb
               'unknown/unused/redefined-label warnings; include lists are never empty (spec lowering and line-at-a-time mirror). Tied to '
               'parser.py by exhaustive shape enumeration (7 construct variants x break/continue per loop level; quick: depth <= 2, thorough: '
               'depth <= 3 incl. the extended space and depth 4 exhaustively when the time budget allows - the evidence says which; each '
-              'global / in a function / several functions) and random programs (depth <= 6): parse_script output vs spec vs mirror, plus direct oracles on the '
+              'global / in a function / several functions / in a function defined while global blocks are open), exhaustive controlling-'
+              'expression enumeration (every if / elif / while / for site x every expression kind and constant class x every way the body '
+              'leaves) and random programs (depth <= 6, half of them with pool expressions substituted for their tests): parse_script '
+              'output vs spec vs mirror, plus direct oracles on the '
               'implementation output (validate_script, per-scope label/jump census, lint_script, execution).')
 LEVEL_NOTE = ('Trusted: Lean kernel; extract.py; harness (progen renderer, scope oracles). The core theorems speak about the spec lowering; '
               'parsed_well_formed carries them to the line-at-a-time mirror via the imported C01.parseLines_render. WellNested is not needed '
@@ -140,6 +143,13 @@ def in_context(body, context):
     tail = [{'k': 'if', 'c': var('m'), 't': [inc('m')], 'else': None}]      # a sibling construct after the shape
     if context == 'global':
         prog = init + body + tail
+    elif context == 'blockfn':
+        # the function is defined while two global blocks are still open (the parser's block stack is not empty at `function`)
+        fn = func('fa', init + body + tail + [{'k': 'ret', 'e': var('m')}])
+        prog = [{'k': 'expr', 'name': 'g', 'e': num(0)},
+                {'k': 'while', 'c': wf_binary('<', var('g'), num(1)),
+                 'b': [inc('g'), {'k': 'if', 'c': var('g'), 't': [fn], 'else': None}]},
+                {'k': 'expr', 'name': 'r', 'e': call('fa')}]
     elif context == 'function':
         prog = [func('fa', init + body + tail + [{'k': 'ret', 'e': var('m')}])] + \
                [{'k': 'expr', 'name': 'r', 'e': call('fa')}]
@@ -159,6 +169,176 @@ def in_context(body, context):
 
 
 CONTEXTS = ['global', 'function', 'multi']
+CONTEXTS_PLUS = CONTEXTS + ['blockfn']
+
+
+# ---------------------------------------------------------------------------------------------------------------------
+# controlling-expression family: the lowering must not depend on WHAT the test / values expression of a construct is
+# (its syntactic kind, a constant value) nor on HOW the body leaves (falls through, break, continue, return, nothing)
+# ---------------------------------------------------------------------------------------------------------------------
+
+def _frac(p, q):
+    return {'number': [p, q]}
+
+
+# every expression kind of the expression model x the value classes a lowering could tell apart (falsy / truthy constants of every
+# literal type, constant-foldable operators, names that are constants by convention, calls with and without arguments, arrays)
+COND_POOL = [
+    num(0), num(1), _frac(5, 2), _frac(1, 2), num(1000000),
+    progen.string(''), progen.string('a'), progen.string('0'),
+    var('true'), var('false'), var('null'), var('n'), var('zz'),
+    progen.group(num(1)), progen.group(num(0)), progen.group(var('true')), progen.group(wf_binary('<', var('n'), num(3))),
+    progen.group(progen.group(num(1))),
+    progen.unop('!', num(0)), progen.unop('!', num(1)), progen.unop('-', num(1)), progen.unop('-', var('n')), progen.unop('!', var('n')),
+    progen.unop('!', progen.group(num(1))), progen.unop('!', progen.unop('!', num(1))),
+    wf_binary('==', num(1), num(1)), wf_binary('<', var('n'), num(3)), wf_binary('&&', num(1), num(0)), wf_binary('||', num(0), num(1)),
+    wf_binary('+', num(1), num(1)), wf_binary('-', num(1), num(1)),
+    call('arrayNew'), call('arrayNew', num(1), num(2)), call('systemBoolean', num(1)), call('if', num(1), num(1), num(0)),
+    call('objectNew'),
+]
+
+
+def expr_class(e):
+    """tag of an expression of the pool: its kind and, for literals, the value class"""
+    (k, v), = e.items()
+    if k == 'number':
+        return 'number:' + ('zero' if v[0] == 0 else ('int' if v[1] == 1 else 'frac'))
+    if k == 'string':
+        return 'string:' + ('empty' if not v else 'nonempty')
+    if k == 'variable':
+        return 'variable:' + (v if v in ('true', 'false', 'null') else 'name')
+    if k == 'function':
+        return 'function:' + ('args' if v['args'] else 'noargs')
+    return k
+
+
+def _if(c, t, els=None):
+    return {'k': 'if', 'c': c, 't': t, 'else': els}
+
+
+def _even(k=2):
+    return wf_binary('==', wf_binary('%', var('n'), num(k)), num(0))
+
+
+def _ge2():
+    return wf_binary('>=', var('n'), num(2))
+
+
+# how the body of the loop under test leaves it
+LOOP_BODIES = {
+    'plain': lambda: [inc('n')],
+    'empty': lambda: [],
+    'break': lambda: [inc('n'), {'k': 'break'}],
+    'continue': lambda: [inc('n'), {'k': 'continue'}],
+    'continue+break': lambda: [inc('n'), _if(_even(), [{'k': 'continue'}]), {'k': 'break'}],
+    'return': lambda: [inc('n'), {'k': 'ret', 'e': var('n')}],
+    'guarded-return': lambda: [inc('n'), _if(_ge2(), [{'k': 'ret', 'e': var('n')}])],
+    'guarded-break': lambda: [inc('n'), _if(_ge2(), [{'k': 'break'}])],
+    'guarded-continue': lambda: [inc('n'), _if(_ge2(), [{'k': 'continue'}]), inc('m')],
+    # break / continue that belong to an INNER loop only: the loop under test has none of its own
+    'inner-while-break': lambda: [inc('n'), {'k': 'while', 'c': wf_binary('<', var('m'), num(2)), 'b': [inc('m'), {'k': 'break'}]}],
+    'inner-for-continue': lambda: [inc('n'), {'k': 'for', 'value': 'w', 'index': None, 'vals': call('arrayNew', num(1), num(2)),
+                                              'b': [_if(_even(), [{'k': 'continue'}]), inc('m')]}],
+}
+
+# how the branches of the if chain under test leave it: (enclosing loop, transfer statement, which branches end with it)
+IF_BODIES = {
+    'plain': (None, None, None),
+    'empty': (None, 'empty', 'all'),
+    'return-all': (None, 'ret', 'all'),
+    'return-first': (None, 'ret', 'first'),
+    'in-while': ('while', None, None),
+    'in-while-break-all': ('while', 'break', 'all'),
+    'in-while-break-first': ('while', 'break', 'first'),
+    'in-while-continue-all': ('while', 'continue', 'all'),
+    'in-for-break-all': ('for', 'break', 'all'),
+    'in-for-continue-all': ('for', 'continue', 'all'),
+    'in-for-continue-first': ('for', 'continue', 'first'),
+}
+
+# (construct variant, position of the expression under test)
+CONTROL_SITES = [('if', 'if'), ('ifelse', 'if'), ('ifelif', 'if'), ('ifelif', 'elif'), ('ifelifelse', 'if'), ('ifelifelse', 'elif'),
+                 ('while', 'test'), ('for', 'values'), ('forix', 'values')]
+
+
+def control_construct(variant, pos, e, body_kind):
+    """structured statements: one construct whose controlling expression at `pos` is `e` and whose body leaves as `body_kind`"""
+    if variant == 'while':
+        return [{'k': 'while', 'c': e, 'b': LOOP_BODIES[body_kind]()}]
+    if variant in ('for', 'forix'):
+        return [{'k': 'for', 'value': 'v', 'index': 'i' if variant == 'forix' else None, 'vals': e, 'b': LOOP_BODIES[body_kind]()}]
+    host, transfer, where = IF_BODIES[body_kind]
+
+    def branch(i):
+        if transfer == 'empty':
+            return []
+        body = [{'k': 'expr', 'name': 'o', 'e': num(i)}]
+        if transfer is not None and (where == 'all' or i == 0):
+            body.append({'k': 'ret', 'e': var('o')} if transfer == 'ret' else {'k': transfer})
+        return body
+
+    c_if = e if pos == 'if' else _even(2)
+    c_elif = e if pos == 'elif' else _even(3)
+    if variant == 'if':
+        els = None
+    elif variant == 'ifelse':
+        els = {'k': 'else', 'b': branch(1)}
+    elif variant == 'ifelif':
+        els = {'k': 'elif', 'c': c_elif, 't': branch(1), 'else': None}
+    else:
+        els = {'k': 'elif', 'c': c_elif, 't': branch(1), 'else': {'k': 'else', 'b': branch(2)}}
+    stmts = [_if(c_if, branch(0), els)]
+    if host == 'while':
+        stmts = [{'k': 'while', 'c': wf_binary('<', var('n'), num(3)), 'b': [inc('n')] + stmts + [inc('m')]}]
+    elif host == 'for':
+        stmts = [{'k': 'for', 'value': 'v', 'index': None, 'vals': call('arrayNew', num(1), num(2), num(3)), 'b': [inc('n')] + stmts + [inc('m')]}]
+    return stmts
+
+
+def control_specs():
+    """the complete space (site x expression x body); deterministic order"""
+    for variant, pos in CONTROL_SITES:
+        bodies = LOOP_BODIES if variant in ('while', 'for', 'forix') else IF_BODIES
+        for ix in range(len(COND_POOL)):
+            for body_kind in bodies:
+                yield variant, pos, ix, body_kind
+
+
+def control_cases(chunk):
+    cases = []
+    for (variant, pos, ix, body_kind), context in chunk:
+        e = COND_POOL[ix]
+        cases.append((in_context(control_construct(variant, pos, e, body_kind), context),
+                      ['controls', context, variant + '@' + pos, 'expr:' + expr_class(e), 'body:' + body_kind]))
+    return cases
+
+
+def mutate_controls(block, rng, p):
+    """Replace (in place, with probability p each) the controlling expressions of a structured program - if / elif / while tests and
+    for values - by expressions of the pool.  Loops that no longer end are stopped by the statement budget."""
+    for s in block:
+        k = s['k']
+        if k == 'if':
+            node = s
+            while node is not None:
+                if node['k'] == 'else':
+                    mutate_controls(node['b'], rng, p)
+                    break
+                if rng.random() < p:
+                    node['c'] = rng.choice(COND_POOL)
+                mutate_controls(node['t'], rng, p)
+                node = node.get('else')
+        elif k == 'while':
+            if rng.random() < p:
+                s['c'] = rng.choice(COND_POOL)
+            mutate_controls(s['b'], rng, p)
+        elif k == 'for':
+            if rng.random() < p:
+                s['vals'] = rng.choice(COND_POOL)
+            mutate_controls(s['b'], rng, p)
+        elif k == 'func':
+            mutate_controls(s['b'], rng, p)
+    return block
 
 
 # ---------------------------------------------------------------------------------------------------------------------
@@ -229,6 +409,9 @@ def parse_impl(text):
         return parser.parse_script(text), None
     except parser.BareScriptParserError as exc:
         return None, exc.error
+    except Exception as exc:  # pylint: disable=broad-except
+        # a crash of the parser is not a model: nothing for the oracles to inspect (the mirror comparison reports it)
+        return None, 'hostexc ' + type(exc).__name__
 
 
 def run_cases(ctx, st, stream, cases, generated_only=False):
@@ -260,11 +443,11 @@ def run_cases(ctx, st, stream, cases, generated_only=False):
 _WORK = {}
 
 
-def shape_cases(chunk):
+def shape_cases(chunk, contexts=CONTEXTS):
     cases = []
     for slots, shape in chunk:
         body = build(shape)
-        for context in CONTEXTS:
+        for context in contexts:
             cases.append((in_context(body, context), ['depth%d' % len(shape), context, 'ext' if slots else 'lit'] +
                           sorted({lvl[0] for lvl in shape})))
     return cases
@@ -276,7 +459,15 @@ def _worker(job):
     ctx.driver = fw.Driver(DRIVER)
     st = fw.StreamStats(stream, '')
     try:
-        run_cases(ctx, st, stream, shape_cases(payload) if kind == 'shapes' else payload, generated_only)
+        if kind == 'shapes':
+            cases = shape_cases(payload)
+        elif kind == 'shapes+':
+            cases = shape_cases(payload, CONTEXTS_PLUS)
+        elif kind == 'controls':
+            cases = control_cases(payload)
+        else:
+            cases = payload
+        run_cases(ctx, st, stream, cases, generated_only)
     except fw.DriverCrash as exc:
         return {'crash': str(exc)}
     return {'evaluations': st.evaluations, 'hashes': st.hashes, 'hist': st.hist, 'samples': st.samples,
@@ -376,8 +567,9 @@ def streams(ctx):
                     f'EXHAUSTIVE: every nesting chain of the 7 construct variants {{if, if-else, if-elif, if-elif-else, while, for, '
                     f'for-with-index}} with optional break/continue at each loop level, depth 1..{depth_a} (nested construct in the first '
                     f'branch), plus the extended space (nested construct in EVERY branch, break/continue in every block inside a loop, so '
-                    f'that they bind through nested ifs) depth 1..{depth_b}; each at global scope, inside a function, and with several '
-                    f'functions in one script; non-trivial = the lowered code defines at least one label')
+                    f'that they bind through nested ifs) depth 1..{depth_b}; each at global scope, inside a function, with several '
+                    f'functions in one script, and inside a function defined while global blocks (while > if) are still open; '
+                    f'non-trivial = the lowered code defines at least one label')
     seen = set()
     todo = []
     for slots, maxd in ((False, depth_a), (True, depth_b)):
@@ -386,11 +578,11 @@ def streams(ctx):
                 if shape not in seen:
                     seen.add(shape)
                     todo.append((slots, shape))
-    jobs = [('shapes', 'shapes', ch, False) for ch in chunks(todo, 700)]
+    jobs = [('shapes+', 'shapes', ch, False) for ch in chunks(todo, 500)]
     run_jobs(ctx, st, jobs)
     st.exhaustive = True
     ctx.notes.append(f'shapes: literal space depth<={depth_a} + extended space depth<={depth_b}: {len(seen)} distinct shapes x '
-                     f'{len(CONTEXTS)} contexts, enumerated completely')
+                     f'{len(CONTEXTS_PLUS)} contexts, enumerated completely')
 
     # --- stream shapes4 (thorough): the literal space at depth 4 - exhaustive if it fits the time budget, else a uniform sample
     if not ctx.quick:
@@ -407,18 +599,43 @@ def streams(ctx):
         ctx.notes.append(f'shapes4: {done}/{len(jobs)} chunks of 700 shapes x {len(CONTEXTS)} contexts '
                          f'({"EXHAUSTIVE depth 4" if st.exhaustive else "SAMPLED depth 4 (time budget reached)"}), {n_workers()} workers')
 
+    # --- stream controls: exhaustive, every construct site x every controlling-expression class x every way the body leaves
+    contexts = CONTEXTS
+    st = ctx.stream('controls',
+                    f'EXHAUSTIVE: every controlling-expression site {{if, elif, while test, for / for-with-index values}} of the 7 construct '
+                    f'variants x {len(COND_POOL)} expressions covering every expression kind and constant class (number literal zero / '
+                    f'integer / fraction, string literal empty / non-empty, true / false / null, plain names, groups, unary ! and -, '
+                    f'constant-foldable binaries, calls with and without arguments, array values) x every way the body leaves (falls '
+                    f'through, empty, break, continue, both, return, guarded, break / continue of an inner loop only; if chains: every / '
+                    f'only the first branch ends with return, or with break / continue of an enclosing while / for), each at global '
+                    f'scope, inside a function, and with several functions in one script; non-trivial = the lowered code defines at '
+                    f'least one label')
+    todo = [(spec, context) for spec in control_specs() for context in contexts]
+    run_jobs(ctx, st, [('controls', 'controls', ch, False) for ch in chunks(todo, 500)])
+    st.exhaustive = True
+    ctx.notes.append(f'controls: {len(todo) // len(contexts)} (site, expression, body) combinations x {len(contexts)} contexts, '
+                     f'enumerated completely')
+
     # --- stream random: progen programs, depth <= 6
     rng = ctx.rng('random')
+    rng_controls = ctx.rng('random-controls')
     n = ctx.scale(300, 6000)
     st = ctx.stream('random', 'progen.Gen grammar-directed programs, nesting depth <= 6, <= 3 functions + prelude, all seven constructs with '
                               'break/continue; a quarter of them with raw user labels/jumps (L1, L2: oracles restricted to generated '
-                              'names); non-trivial = the lowered code defines at least one label')
+                              'names); in every second program a third of the if / elif / while tests and for values are replaced by '
+                              'expressions of the controlling-expression pool (literals of every type, constants, groups, unary, calls; '
+                              'loops that no longer end run into the statement budget); non-trivial = the lowered code defines at least '
+                              'one label')
     plain, raw = [], []
     for i in range(n):
         allow_raw = (i % 4 == 3)
         gen = progen.Gen(rng, max_depth=rng.choice([3, 4, 5, 6]), allow_raw=allow_raw)
         prog = gen.program()
-        (raw if allow_raw else plain).append((prog, sorted(gen.stats)))
+        tags = sorted(gen.stats)
+        if i % 2 == 1:
+            mutate_controls(prog, rng_controls, 0.34)
+            tags.append('controls-mutated')
+        (raw if allow_raw else plain).append((prog, tags))
     jobs = [('progs', 'random', ch, False) for ch in chunks(plain, 500)] + [('progs', 'random', ch, True) for ch in chunks(raw, 500)]
     run_jobs(ctx, st, jobs)
     # the smallest failing input first (it becomes the replay file)
@@ -437,17 +654,29 @@ def search(ctx):
         for depth in range(1, maxd + 1):
             for shape in shapes(depth, False, slots):
                 body = build(shape)
-                for context in CONTEXTS:
+                for context in CONTEXTS_PLUS:
                     text = '\n'.join(progen.render(in_context(body, context)))
                     model, _ = parse_impl(text)
                     if model is not None:
                         check_model(ctx, text, model, execute=(depth <= 2))
                 if len(ctx.witnesses) - before >= 20:
                     return
+    for variant, pos, ix, body_kind in control_specs():
+        body = control_construct(variant, pos, COND_POOL[ix], body_kind)
+        for context in CONTEXTS:
+            text = '\n'.join(progen.render(in_context(body, context)))
+            model, _ = parse_impl(text)
+            if model is not None:
+                check_model(ctx, text, model, execute=(context != 'multi'))
+        if len(ctx.witnesses) - before >= 20:
+            return
     rng = ctx.rng('search')
-    for _ in range(ctx.scale(1500, 20000)):
+    for i in range(ctx.scale(1500, 20000)):
         gen = progen.Gen(rng, max_depth=rng.choice([3, 4, 5, 6, 7]))
-        text = '\n'.join(progen.render(gen.program()))
+        prog = gen.program()
+        if i % 2 == 1:
+            mutate_controls(prog, rng, 0.34)
+        text = '\n'.join(progen.render(prog))
         model, _ = parse_impl(text)
         if model is not None:
             check_model(ctx, text, model, execute=False)
